@@ -23,17 +23,17 @@ const ModPath = "github.com/anyproto/any-sync"
 // Prog is the loaded, type-checked and SSA-built view of the repository's
 // current working tree.
 type Prog struct {
-	Root     string
-	Fset     *token.FileSet
-	Pkgs     []*packages.Package          // root (repo) packages, non-test
-	ByPath   map[string]*packages.Package // import path -> package (repo + deps with syntax)
-	SSA      *ssa.Program
-	SSAPkgs  map[string]*ssa.Package
-	LoadS    float64
-	SSAS     float64
-	Tolerated []string // load errors tolerated (outside anchor packages)
-	AllFuncs map[*ssa.Function]bool // every function with a body in repo packages (incl. anonymous)
-	fileOf   map[*ast.File]*packages.Package
+	Root      string
+	Fset      *token.FileSet
+	Pkgs      []*packages.Package          // root (repo) packages, non-test
+	ByPath    map[string]*packages.Package // import path -> package (repo + deps with syntax)
+	SSA       *ssa.Program
+	SSAPkgs   map[string]*ssa.Package
+	LoadS     float64
+	SSAS      float64
+	Tolerated []string               // load errors tolerated (outside anchor packages)
+	AllFuncs  map[*ssa.Function]bool // every function with a body in repo packages (incl. anonymous)
+	fileOf    map[*ast.File]*packages.Package
 }
 
 // Broken is returned (as panic payload or error) when the checker itself cannot
@@ -52,6 +52,10 @@ var ExtraDeps = []string{
 	"github.com/anyproto/go-chash",
 }
 
+// Overlay, when set, replaces the content of the named files (absolute paths)
+// for the analysis: a source variant is analysed without touching the disk.
+var Overlay map[string][]byte
+
 // Load loads ./... of root plus ExtraDeps, builds SSA for them.
 func Load(root string, extraEnv ...string) (*Prog, error) {
 	t0 := time.Now()
@@ -66,11 +70,16 @@ func Load(root string, extraEnv ...string) (*Prog, error) {
 	}
 	env = append(env, "GOFLAGS=-mod=mod", "GOPROXY=off", "GOWORK=off", "GOTOOLCHAIN=go1.25.7")
 	env = append(env, extraEnv...)
+	mode := packages.LoadAllSyntax
+	if os.Getenv("VERIF_LOAD") == "export" {
+		mode = packages.LoadSyntax
+	}
 	cfg := &packages.Config{
-		Mode:  packages.LoadAllSyntax,
-		Dir:   root,
-		Env:   env,
-		Tests: false,
+		Mode:    mode,
+		Dir:     root,
+		Env:     env,
+		Tests:   false,
+		Overlay: Overlay,
 	}
 	patterns := append([]string{"./..."}, ExtraDeps...)
 	pkgs, err := packages.Load(cfg, patterns...)
